@@ -134,6 +134,18 @@ static void grid_item (long it, void *arg)
 	if (why && st == OF_STATUS_OK) { snprintf (sig, sizeof sig, "codec=%d|kind=invalid-configuration-accepted|why=%s", t->codec, why); viol (sig); }
 	if (!why && st != OF_STATUS_OK) { snprintf (sig, sizeof sig, "codec=%d|kind=valid-configuration-rejected|status=%d", t->codec, (int) st); viol (sig); }
 	if (!why && st == OF_STATUS_OK) functional_cycle (t, s);
+	if (st != OF_STATUS_OK && t->pre == 0) {
+		/* a refused configuration leaves a session that still accepts a valid one (the property excludes no session) */
+		tup_t v = *t;
+		of_status_t st2;
+		v.k = t->codec == 3 ? 4 : 3; v.r = t->codec == 3 ? 4 : 2; v.len = 8; v.m = 8; v.N1 = 3; v.seed = 1;
+		if (t->codec == 1) { of_rs_parameters_t p; memset (&p, 0, sizeof p); p.nb_source_symbols = v.k; p.nb_repair_symbols = v.r; p.encoding_symbol_length = v.len; st2 = of_set_fec_parameters (s, (of_parameters_t *) &p); }
+		else if (t->codec == 2) { of_rs_2_m_parameters_t p; memset (&p, 0, sizeof p); p.nb_source_symbols = v.k; p.nb_repair_symbols = v.r; p.encoding_symbol_length = v.len; p.m = 8; st2 = of_set_fec_parameters (s, (of_parameters_t *) &p); }
+		else { of_ldpc_parameters_t p; memset (&p, 0, sizeof p); p.nb_source_symbols = v.k; p.nb_repair_symbols = v.r; p.encoding_symbol_length = v.len; p.prng_seed = 1; p.N1 = 3; st2 = of_set_fec_parameters (s, (of_parameters_t *) &p); }
+		vf_stat_add (st_trans, 1);
+		if (st2 != OF_STATUS_OK) { snprintf (sig, sizeof sig, "codec=%d|kind=valid-configuration-rejected-after-a-refused-one|first=%s", t->codec, why ? why : "valid"); viol (sig); }
+		else { snprintf (vf_slot (), VF_SLOT_LEN, "%s [retry with a valid configuration]", g_case); functional_cycle (&v, s); }
+	}
 	of_release_codec_instance (s);
 	{ char nm[64]; snprintf (nm, sizeof nm, "codec%d:%s:%s", t->codec, why ? why : "valid", st == OF_STATUS_OK ? "OK" : "rejected"); vf_outcome (nm, 1); }
 	vf_stat_add (st_states, 1);
@@ -147,7 +159,7 @@ static const char *CORR[] = {
 	"finish(NULL session)", "is_complete(NULL session)", "get_tab(NULL session)", "get_control(NULL session)", "set_control(NULL session)",
 	"dws(esi=n)", "dws(esi=n+1)", "dws(esi=UINT32_MAX)", "build(esi=0)", "build(esi=k-1)", "build(esi=n)", "build(esi=n+1)", "build(esi=UINT32_MAX)",
 	"build(on decoder-only)", "dws(on encoder-only)", "sas(on encoder-only)", "finish(on encoder-only)", "is_complete(on encoder-only)", "get_tab(on encoder-only)",
-	"get_control(unknown type)", "get_control(bad length)",
+	"get_control(unknown type)", "get_control(bad length)", "set_control(field size 5) on a configured codec-2 session",
 };
 #define NCORR ((int) (sizeof CORR / sizeof CORR[0]))
 
@@ -161,7 +173,7 @@ static void args_item (long it, void *arg)
 	unsigned char **sym = calloc (n, sizeof (void *));
 	void **tab = calloc (n, sizeof (void *)), **src = calloc (k, sizeof (void *));
 	unsigned char dummy[64];
-	int applicable = 1, boolres = 0, isbool = 0;
+	int applicable = 1, boolres = 0, isbool = 0, demand_error = 1;
 	char sig[160];
 	UINT32 val = 0;
 	(void) arg;
@@ -215,6 +227,7 @@ static void args_item (long it, void *arg)
 	case 24: if (a->role != OF_ENCODER) { applicable = 0; break; } cst = of_get_source_symbols_tab (s, src); break;
 	case 25: cst = of_get_control_parameter (s, 77777, &val, sizeof val); break;
 	case 26: cst = of_get_control_parameter (s, OF_CTRL_GET_MAX_K, &val, 1); break;
+	case 27: { UINT16 fs = 5; if (a->codec != 2) { applicable = 0; break; } demand_error = 0; cst = of_set_control_parameter (s, OF_RS_CTRL_SET_FIELD_SIZE, &fs, sizeof fs); if (cst == OF_STATUS_OK) applicable = 0; /* not refused: nothing is demanded */ break; }
 	}
 	{
 		UINT32 mk = 0, mn = 0;
@@ -224,7 +237,7 @@ static void args_item (long it, void *arg)
 	}
 	vf_stat_add (st_trans, 1);
 	if (applicable) {
-		if (isbool ? boolres != 0 : cst == OF_STATUS_OK) { snprintf (sig, sizeof sig, "codec=%d|kind=corrupted-call-accepted|call=%s", a->codec, CORR[a->corruption]); viol (sig); }
+		if (demand_error && (isbool ? boolres != 0 : cst == OF_STATUS_OK)) { snprintf (sig, sizeof sig, "codec=%d|kind=corrupted-call-accepted|call=%s", a->codec, CORR[a->corruption]); viol (sig); }
 		/* source buffers must not have been touched */
 		for (i = 0; i < k; i++) { uint32_t j; for (j = 0; j < a->len; j++) if (sym[i][j] != (unsigned char) (vf_mix64 ((uint64_t) i * 77 + j) >> 5)) { snprintf (sig, sizeof sig, "codec=%d|kind=corrupted-call-modified-source|call=%s", a->codec, CORR[a->corruption]); viol (sig); i = k; break; } }
 		/* the session is still usable */
